@@ -61,7 +61,15 @@ func c11Owned(w *storWorld) map[string]map[string]string {
 	}
 	for _, kv := range w.f.DumpPrefix(rnstypes.StoreKey, []byte(rnstypes.PrimaryNameKeyPrefix)) {
 		owner := strings.TrimSuffix(string(kv.K[len(rnstypes.PrimaryNameKeyPrefix):]), "/")
-		put(owner, "primary-name", string(kv.V))
+		// a pointer is its holder's resource while it points at a live name the holder owns; a pointer left dangling by a
+		// transfer, a sale or an expiry is nobody's (what becomes of it is not judged)
+		kind := "primary-name-dangling"
+		for _, n := range w.c.App.RnsKeeper.GetAllNames(w.f.Ctx) {
+			if n.Name+"."+n.Tld == string(kv.V) && n.Value == owner && w.f.Height() < n.Expires {
+				kind = "primary-name"
+			}
+		}
+		put(owner, kind, string(kv.V))
 	}
 	for _, f := range w.c.App.StorageKeeper.GetAllFileByOwner(w.f.Ctx) {
 		put(f.Owner, "file:"+fileKey(f.Merkle, f.Owner, f.Start), "exists")
@@ -103,7 +111,9 @@ func c11Manages(url, kind string) bool {
 	case "inbox", "block":
 		return has(".notifications.Msg")
 	case "primary-name":
-		return has(".rns.MsgMakePrimary")
+		return has(".rns.MsgMakePrimary", ".rns.MsgRegister") // registrations carry a set-primary flag: they manage primary names too
+	case "primary-name-dangling":
+		return false
 	case "file", "file-proof":
 		return has(".storage.MsgDeleteFile")
 	}
@@ -175,7 +185,7 @@ func c11CompareScoped(before, after map[string]map[string]string, signer string,
 
 func TestC11(t *testing.T) {
 	rec := ev.For("C11")
-	rec.Describe("(a) programs x inputs: the request types of the custom Msg services are enumerated from the app's interface registry (45 at the pinned commit; every registered type must be routable); for each type every field is filled by reflection, in one family with a distinct valid address in every string field, in another with generic values; GetSigners() must be exactly [Creator], the router must have a handler, and the message must survive a TxConfig encode/decode round trip. (b) abci: for every type a transaction whose message names creator A but is signed only by B must be rejected before execution (no sequence bump, no state change), the same message signed by A must pass the ante handler (sequence bumps). (c) fork histories: owners set up provider records + collateral + claimers, oracle feeds, inboxes, block lists, primary names and stored files; then arbitrary messages of all types (fields drawn from pools that contain the owners' resources) are signed by every account; after each message of a type the property names as managing a kind of resource (provider messages: provider record and collateral; oracle messages: feeds; notification messages: inbox and block list; MakePrimary: primary-name pointer; DeleteFile: stored files and their proof records) those resources of every non-signer must be unchanged (an inbox may gain what the signer just sent); what other message types do to them is counted, not judged; wasmbinding.PerformPostFile must fail unless msg.Creator == contract. Non-trivial = (a) a type with >= 2 string fields filled with distinct addresses, (c) a history in which a non-owner aimed an owner-only message type at an existing resource; distinct = distinct cases.",
+	rec.Describe("(a) programs x inputs: the request types of the custom Msg services are enumerated from the app's interface registry (45 at the pinned commit; every registered type must be routable); for each type every field is filled by reflection, in one family with a distinct valid address in every string field, in another with generic values; GetSigners() must be exactly [Creator], the router must have a handler, and the message must survive a TxConfig encode/decode round trip. (b) abci: for every type a transaction whose message names creator A but is signed only by B must be rejected before execution (no sequence bump, no state change), the same message signed by A must pass the ante handler (sequence bumps). (c) fork histories: owners set up provider records + collateral + claimers, oracle feeds, inboxes, block lists, primary names and stored files; then arbitrary messages of all types (fields drawn from pools that contain the owners' resources) are signed by every account; after each message of a type the property names as managing a kind of resource (provider messages: provider record and collateral; oracle messages: feeds; notification messages: inbox and block list; MakePrimary and the registration messages (which carry a set-primary flag): primary-name pointers that point at a live name of their holder; DeleteFile: stored files and their proof records) those resources of every non-signer must be unchanged (an inbox may gain what the signer just sent); what other message types do to them is counted, not judged; wasmbinding.PerformPostFile must fail unless msg.Creator == contract. Non-trivial = (a) a type with >= 2 string fields filled with distinct addresses, (c) a history in which a non-owner aimed an owner-only message type at an existing resource; distinct = distinct cases.",
 		"contract execution itself is not exercised (no wasm binaries offline); the binding is exercised at PerformPostFile")
 	c := chain.New(chain.GenesisOpts{NumAccounts: 8, Balance: sdk.NewCoins(sdk.NewInt64Coin("ujkl", 1_000_000_000_000_000))})
 	defer c.Close()
@@ -357,6 +367,10 @@ func TestC11(t *testing.T) {
 			w.f.Exec(&oracletypes.MsgUpdateFeed{Creator: a.Bech, Name: fmt.Sprintf("feed%d", i), Data: `{"price":"1"}`})
 			w.f.Exec(newMsgRegisterName(a.Bech, fmt.Sprintf("owner%d.jkl", i), 1, "{}", true))
 			w.f.Exec(newMsgRegisterName(a.Bech, fmt.Sprintf("second%d.jkl", i), 1, "{}", false)) // a second name the primary pointer does not point at
+			if rapid.Bool().Draw(rt, "sameLabelUnderTheOtherTLD") { // ... and the same label under the other TLD, for longer, as the primary name
+				w.f.Exec(newMsgRegisterName(a.Bech, fmt.Sprintf("owner%d.ibc", i), 3, "{}", false))
+				w.f.Exec(&rnstypes.MsgMakePrimary{Creator: a.Bech, Name: fmt.Sprintf("owner%d.ibc", i)})
+			}
 			w.f.Exec(&notiftypes.MsgCreateNotification{Creator: accs[(i+1)%3].Bech, To: a.Bech, Contents: "{}"})
 			w.f.Exec(&notiftypes.MsgBlockSenders{Creator: a.Bech, ToBlock: []string{accs[4].Bech}})
 			w.buyStorage(a, a.Bech, 30, 1_000_000_000, "")
@@ -381,7 +395,7 @@ func TestC11(t *testing.T) {
 			}
 		}
 		env := func() *fillEnv {
-			e := &fillEnv{Height: w.f.Height(), Names: []string{"owner0.jkl", "owner1.jkl", "owner2.jkl", "second0.jkl", "second1.jkl", "second2.jkl", "Owner0.jkl", "owner1xjkl", "feed0", "feed1", "feed2", "Feed0", "FEED1", "feed0 ", " feed1", "fe ed2"}}
+			e := &fillEnv{Height: w.f.Height(), Names: []string{"owner0.jkl", "owner1.jkl", "owner2.jkl", "owner0.ibc", "owner1.ibc", "second0.jkl", "second1.jkl", "second2.jkl", "Owner0.jkl", "owner1xjkl", "feed0", "feed1", "feed2", "Feed0", "FEED1", "feed0 ", " feed1", "fe ed2"}}
 			for _, a := range accs {
 				e.Accounts = append(e.Accounts, a.Bech)
 			}
@@ -463,6 +477,17 @@ func TestC11(t *testing.T) {
 			case 2: // long after every name registered so far has expired
 				w.f.SetBlock(w.f.Height()+6_000_000, time.Unix(w.f.Time().Unix()+36_000_000, 0).UTC())
 				w.logf("height jumps by 6,000,000 blocks")
+				if rapid.Bool().Draw(rt, "takeOverALapsedName") { // somebody else registers a name that has just lapsed
+					i := rapid.IntRange(0, 2).Draw(rt, "whoseName")
+					taker := accs[(i+1+rapid.IntRange(0, 3).Draw(rt, "taker"))%5]
+					m := newMsgRegisterName(taker.Bech, fmt.Sprintf("owner%d.jkl", i), 1, "{}", rapid.Bool().Draw(rt, "asPrimary"))
+					before := c11Owned(w)
+					res := w.f.Exec(m)
+					w.logf("%s -> %s", msgSummary(m), trunc(res.String(), 80))
+					if sig, msg := c11CompareScoped(before, c11Owned(w), taker.Bech, msgSummary(m), sdk.MsgTypeURL(m), &outOfScope); sig != "" {
+						failf(rt, rec, sig, w.trace, "%s", msg)
+					}
+				}
 			}
 		}
 		// wasm binding: a contract can post only in its own name
